@@ -11,7 +11,7 @@ CLAIMED = {
  'C01': ('Coq proof of the symmetric-delete search (candidate completeness via common deletion variant, exact filter); deletion-variant generator regenerated from nn._comb_gen and proved equal to the model; differential run of the extracted model vs symdel/nearest_neighbor',
          'Theorems C01_* (coq/props/C01.v): for every list of strings over any alphabet and every k the modelled bucket-pairing algorithm returns exactly {(i,j,lev): i<>j, lev<=k}, no pair repeated, duplicates at distance 0, never (i,i); slev is proved to be the optimal edit cost. Unbounded in sizes and k. Tie to nn.py: nn._comb_gen is regenerated from the source on every run and proved to yield exactly the deletion variants of the model (C01_source_comb_gen, coq/props/C01g.v); the rest by the correspondence run (exhaustive small alphabets in one call + random clonal repertoires).',
          COMMON_NOTE + 'rapidfuzz Levenshtein.distance, Python set/dict/itertools semantics.', 'DESIGN.md section 4 C01'),
- 'C02': ('Coq proof: sum c(c-1) over multiplicities = number of ordered coinciding position pairs (cross form: sum of count products), permutation / injective-relabel invariance, row-key join injective under the no-separator guard; pc_n regenerated from stats.py proved equal to the counting definition; exact-fraction differential runs',
+ 'C02': ('Coq proof: sum c(c-1) over multiplicities = number of ordered coinciding position pairs (cross form: sum of count products), permutation / injective-relabel invariance, row-key join injective under the no-separator guard; pc_n and both counting tails of pc regenerated from stats.py proved equal to the counting definition (any listing order of np.unique); exact-fraction differential runs',
          'Theorems C02_* (coq/props/C02.v): for every list over any type with decidable equality the numerator computed the way pc computes it (unique counts) is the number of ordered pairs of distinct positions holding equal elements, the denominator N(N-1); the two-sample form counts cross pairs; invariance under permutation and injective relabelling; 0 <= num <= den; joined row keys coincide iff rows agree in every column when no cell contains the separator (counter-example without the guard kept visible); the regenerated pc_n equals the counting form on multiplicity vectors.',
          COMMON_NOTE + 'numpy.unique / intersect1d grouping, str() of cells injective on the stated cell domain, pandas fillna/astype.', 'DESIGN.md section 4 C02'),
  'C08': ('Coq proof: row-DP weighted Levenshtein = minimum alignment cost for all weights (attained and minimal against the inductive alignment relation), upper bound wd*|a|+wi*|b| (exact storage guard), condensed-index bijection and loop layout for any metric; differential runs vs rapidfuzz / python-Levenshtein / metric classes / pdist / cdist',
